@@ -444,3 +444,33 @@ func Rapid[C any](r *Run, t *testing.T, ck Check[C], n int, gen func(*rapid.T) C
 		r.Inconclusive("check %s: only %d of %d cases ran", ck.Name, ran, n)
 	}
 }
+
+// ForeignEnv runs f with the environment of another machine (a 32-bit target, another OS, no Go
+// installation, another locale and time zone) and restores the environment afterwards. What jennifer
+// renders is a function of the calls made, not of the environment. Not for concurrent use.
+func ForeignEnv(f func()) {
+	vars := map[string]string{
+		"GOARCH": "386", "GOOS": "plan9", "GOROOT": "/nonexistent/go", "GOPATH": "/nonexistent/gopath", "GOFLAGS": "-tags=verifforeign",
+		"TZ": "Pacific/Kiritimati", "LANG": "tr_TR.UTF-8", "LC_ALL": "tr_TR.UTF-8", "HOME": "/nonexistent", "CGO_ENABLED": "0", "GO111MODULE": "off",
+	}
+	old := map[string]*string{}
+	for k, v := range vars {
+		if cur, ok := os.LookupEnv(k); ok {
+			c := cur
+			old[k] = &c
+		} else {
+			old[k] = nil
+		}
+		os.Setenv(k, v)
+	}
+	defer func() {
+		for k, v := range old {
+			if v == nil {
+				os.Unsetenv(k)
+			} else {
+				os.Setenv(k, *v)
+			}
+		}
+	}()
+	f()
+}
